@@ -16,6 +16,7 @@ static fibre_eventq_t hq;
 static fibre_t yf;
 static struct { fibre_t f; uint32_t wake; } sf;
 static int eqdepth, period, npass, nisr, sleeper = 1;
+static int eqroll, aqroll;   /* messages that went through the event queue / the atomic run queue before the scenario starts */
 static long times[32];
 static struct { int kind, arg; } iprog[VRT_MAXCTX];
 static int ids[VRT_MAXCTX];
@@ -83,6 +84,17 @@ static void reset(void)
 	fibre_init(&yf, y_body);
 	fibre_init(&sf.f, s_body);
 	sf.wake = 0;
+	/* queues with a history: their cursors stand anywhere (and any free-running counter inside them has had time to wrap) */
+	for (int i = 0; i < eqroll; i++) {
+		void *e = messageq_claim(&hq.eventq);
+		messageq_send(&hq.eventq, e);
+		e = messageq_receive(&hq.eventq);
+		messageq_release(&hq.eventq, e);
+	}
+	for (int i = 0; i < aqroll; i++) {
+		fibre_run_atomic(&yf);
+		fibre_kill(&yf);            /* drains the request, then withdraws it */
+	}
 	fibre_run(&yf);
 	if (sleeper)
 		fibre_run(&sf.f);
@@ -98,7 +110,8 @@ static void reset(void)
 	vrt_region("eq_receivep", &hq.eventq.receivep, sizeof(hq.eventq.receivep), 0, 0);
 	vrt_region("eq_slot", evstore, eqdepth * sizeof(event_t), sizeof(event_t), 2);
 	vrt_region("taint", fibre_verif_taint_flags(), sizeof(unsigned int), 0, 1);
-	printf("{\"e\":\"Reset\",\"eqdepth\":%d,\"period\":%d,\"sleeper\":%d,\"main\":[", eqdepth, period, sleeper);
+	printf("{\"e\":\"Reset\",\"eqdepth\":%d,\"period\":%d,\"sleeper\":%d,\"eqstart\":%d,\"aqstart\":%d,\"main\":[", eqdepth, period, sleeper,
+	       eqroll % eqdepth, aqroll % 8);
 	for (int k = 0; k < npass; k++) printf("%s%ld", k ? "," : "", times[k]);
 	printf("],\"isr\":[");
 	for (int i = 1; i <= nisr; i++) printf("%s{\"k\":\"%s\",\"a\":%d}", i > 1 ? "," : "", iprog[i].kind ? "event" : "run", iprog[i].arg);
@@ -152,6 +165,8 @@ static void gen(long seed, int nexec, int irq)
 	drv_srand(seed);
 	for (int x = 0; x < nexec; x++) {
 		eqdepth = drv_below(5) ? 1 + drv_below(3) : 12; period = 1 + drv_below(3); sleeper = drv_below(4) != 0;
+		eqroll = drv_below(3) ? 0 : (int)drv_below(700);
+		aqroll = drv_below(3) ? 0 : (int)drv_below(700);
 		npass = 3 + drv_below(8);
 		long t = 0;
 		for (int k = 0; k < npass; k++) { t += drv_below(3); times[k] = t; }
@@ -188,6 +203,8 @@ int main(void)
 			for (int k = 0; k < npass; k++) times[k] = drv_arg(&c, a++);
 			nisr = drv_arg(&c, a++);
 			for (int i = 1; i <= nisr; i++) { iprog[i].kind = drv_arg(&c, a++); iprog[i].arg = drv_arg(&c, a++); }
+			eqroll = c.ntok > a + 1 ? drv_arg(&c, a++) : 0;
+			aqroll = c.ntok > a + 1 ? drv_arg(&c, a++) : 0;
 			reset();
 		} else if (drv_is(&c, "S")) step(drv_arg(&c, 0));
 		else if (drv_is(&c, "Gen")) gen(drv_arg(&c, 0), drv_arg(&c, 1), drv_arg(&c, 2));
